@@ -300,6 +300,61 @@ def opReadPayload (req : Json) : Except String Json := do
   | .ok p => pure (okJson (canonJson p.toJ))
   | .error e => pure (errJson e)
 
+partial def nodeOf (j : Json) : Except String Node :=
+  match j with
+  | .str "x" => pure .dangling
+  | _ =>
+    let fileParts (a : Json) : Except String (Str × Str × Option Str) := do
+      match a with
+      | .arr #[d, nd, t] => pure ((← toStr d), (← toStr nd), match t with | .str s => some s.toList | _ => none)
+      | _ => throw "bad file node"
+    let entries (a : Json) : Except String (List (Str × Node)) := do
+      (← pairs a).mapM (fun (k, v) => do pure ((← toStr k), (← nodeOf v)))
+    match j.getObjVal? "f" with
+    | .ok a => do let (d, nd, t) ← fileParts a; pure (.file d nd t)
+    | _ =>
+    match j.getObjVal? "lf" with
+    | .ok a => do let (d, nd, t) ← fileParts a; pure (.symFile d nd t)
+    | _ =>
+    match j.getObjVal? "d" with
+    | .ok a => do pure (.dir (← entries a))
+    | _ =>
+    match j.getObjVal? "ld" with
+    | .ok a => do pure (.symDir (← entries a))
+    | _ => throw "bad node"
+
+def recOptsOf (req : Json) : Except String RecOpts := do
+  let excl ← strList (← field req "excl")
+  let lstrip ← strList (fieldD req "lstrip" (.arr #[]))
+  let b (k : String) : Bool := match fieldD req k (.bool false) with | .bool v => v | _ => false
+  pure { excl := fun p => excl.contains p, follow := b "follow", normalize := b "normalize", lstrip }
+
+def recValJson : RecVal → Json
+  | .digest d => Json.mkObj [("digest", ofStr d)]
+  | .digestOfText t => Json.mkObj [("text", ofStr t)]
+
+def opRecord (req : Json) : Except String Json := do
+  let o ← recOptsOf req
+  let root ← nodeOf (← field req "root")
+  let cwd ← match optField req "cwd" with
+    | some c => nodeOf c
+    | none => pure root
+  let arts ← strList (← field req "artifacts")
+  match recordArtifacts o root cwd arts with
+  | .ok d => pure (okJson (.arr (d.map (fun p => Json.arr #[ofStr p.1, recValJson p.2])).toArray))
+  | .error e => pure (errJson e)
+
+def opNormpath (req : Json) : Except String Json := do
+  let ps ← strList (← field req "paths")
+  pure (okJson (.arr (ps.map (fun p => ofStr (normpath p))).toArray))
+
+def opMatchProducts (req : Json) : Except String Json := do
+  let products ← artifactsOf (← field req "products")
+  let localArts ← artifactsOf (← field req "local")
+  let (a, b, c) := matchProducts products localArts
+  let js (l : List Str) : Json := .arr ((sortStrs l).map ofStr).toArray
+  pure (okJson (.arr #[js a, js b, js c]))
+
 def dispatch (op : String) (req : Json) : Except String Json :=
   match op with
   | "ping" => pure (okJson (.str "pong"))
@@ -313,6 +368,9 @@ def dispatch (op : String) (req : Json) : Except String Json :=
   | "expiry" => opExpiry req
   | "format" => opFormat req
   | "read_payload" => opReadPayload req
+  | "record" => opRecord req
+  | "normpath" => opNormpath req
+  | "match_products" => opMatchProducts req
   | _ => throw s!"unknown op {op}"
 
 def handle (line : String) : String :=
